@@ -34,6 +34,9 @@ def w(p, data):
 
 
 def save(name, props, steps, tz=540):
+    for st in steps:   # messages and paths are escaped keys: a raw blank means esc() was forgotten
+        for k in ("msg", "p", "name"):
+            assert " " not in str(st.get(k, "")), (name, st)
     json.dump({"name": name, "props": props, "tz": tz, "steps": steps}, open(os.path.join(OUT, name + ".json"), "w"), indent=0)
     print(name, len(steps), "steps")
 
@@ -245,7 +248,7 @@ def crlf_ignore():
         steps.append(w("debug.log", "l%d\n" % n))
     steps.append({"ev": "reset", "mode": "hard", "arg": esc("HEAD@{2}")})
     steps.append({"ev": "status"})
-    save("crlf_ignore", ["C17", "C13", "C04"], steps)
+    save("crlf_ignore", ["C17", "C13", "C04", "C02"], steps)
 
 
 def punct_identity():
@@ -513,7 +516,7 @@ def tracked_then_ignored():
     steps.append({"ev": "commit", "msg": "base"})
     steps.append({"ev": "write", "p": ".goitignore", "data": "*.log\n", "old": False})
     steps.append({"ev": "add", "paths": [".goitignore"]})
-    steps.append({"ev": "commit", "msg": "ignore logs"})
+    steps.append({"ev": "commit", "msg": esc("ignore logs")})
     steps.append(w("trace.log", "v2\n"))
     steps.append(w("other.log", "o\n"))
     steps.append({"ev": "status"})
@@ -532,7 +535,7 @@ def tracked_then_ignored():
     steps.append({"ev": "rm", "paths": ["a.txt", "a.txt"]})
     steps.append({"ev": "lsfiles"})
     steps.append({"ev": "status"})
-    save("tracked_then_ignored", ["C17", "C18", "C04", "C06", "C13"], steps)
+    save("tracked_then_ignored", ["C17", "C18", "C04", "C06", "C13", "C02"], steps)
 
 
 def dup_args():
@@ -750,7 +753,7 @@ def ignore_nested_args():
     steps.append(w("src/main.go", "changed\n"))
     steps.append({"ev": "add", "paths": ["src"]})
     steps.append({"ev": "status"})
-    save("ignore_nested_args", ["C17", "C04", "C13"], steps)
+    save("ignore_nested_args", ["C17", "C04", "C13", "C02", "C06"], steps)
 
 
 def spelled_rm():
